@@ -468,6 +468,10 @@ def intrinsic (d : Dialect) (name : String) (args : List Val) : CM Val := do
   match d, name, args with
   -- all dialects
   | _, "abs", [x] => vmap (absScalar d) x
+  -- sign on integers (HLSL intrinsic, GLSL builtin; MSL has it for floats only and naga expands the integer case)
+  | _, "sign", [x] => vmap (fun v => match v with
+      | .i32 a => pure (.i32 (if a.toInt > 0 then 1#32 else if a.toInt < 0 then 0xFFFFFFFF#32 else 0#32))
+      | _ => throw (.unsupported "function sign on a non-integer")) x
   | _, "min", [x, y] => vzip (minMaxScalar d true) x y
   | _, "max", [x, y] => vzip (minMaxScalar d false) x y
   | _, "clamp", [x, lo, hi] => do
